@@ -404,6 +404,16 @@ class Inliner(object):
             subs = [e.func] + list(e.args) + [k.value for k in e.keywords]
             if isinstance(e.func, ast.Attribute):
                 subs[0] = e.func.value
+            if self._match(e, ctx) is not None and _simple(subs[0]) and not self._match(e, ctx).is_gen:
+                # a helper call: its own arguments are evaluated (in order) into the parameters by _expand, so they
+                # may be anything - unless one of them contains a helper call, which then has to be inlined first
+                inner = None
+                for sub in subs[1:]:
+                    for x in ast.walk(sub):
+                        if isinstance(x, ast.Call) and self._match(x, ctx) is not None:
+                            inner = x
+                if inner is None:
+                    return e
             for sub in subs:
                 if isinstance(sub, ast.Starred):
                     sub = sub.value
